@@ -253,3 +253,108 @@ def run_symbols(seed, n, model_exe):
                 raise
             dis.append({"layer": "L3-symbol", "text": txt, "what": "create_symbol raised " + tl.classify_exc(e)})
     return {"symbols": len(syms), "model_round_trips": nsame}, dis
+
+
+# ---- transformers/head.py: theory_term_to_term vs `convTerm`
+
+def gen_tterm(r, depth=3):
+    """text of a theory term as it may occur as an argument of a head-formula atom or as an n-fold prefix"""
+    k = r.random()
+    if depth == 0 or k < 0.3:
+        return r.choice(["1", "2", "0", "X", "Y", "a", "b", "\"s\"", "10", "#inf", "#sup"])
+    if k < 0.42:
+        return "{} {} {}".format(gen_tterm(r, depth - 1), r.choice(["+", "-"]), gen_tterm(r, depth - 1))
+    if k < 0.5:
+        return "{} {} {} {} {}".format(gen_tterm(r, depth - 1), r.choice(["+", "-"]), gen_tterm(r, depth - 1), r.choice(["+", "-"]), gen_tterm(r, 0))
+    if k < 0.6:
+        return "- {}".format(gen_tterm(r, depth - 1))
+    if k < 0.7:
+        return "({})".format(gen_tterm(r, depth - 1))
+    if k < 0.8:
+        return "{}({})".format(r.choice(["f", "g"]), ", ".join(gen_tterm(r, depth - 1) for _ in range(r.randint(1, 3))))
+    if k < 0.88:
+        n = r.randint(0, 3)
+        return "(" + ", ".join(gen_tterm(r, depth - 1) for _ in range(n)) + ("," if n == 1 else "") + ")"
+    if k < 0.92:
+        return r.choice(["[{}]", "{{{}}}"]).format(", ".join(gen_tterm(r, depth - 1) for _ in range(r.randint(0, 2))))
+    if k < 0.97:
+        return "{} {} {}".format(gen_tterm(r, depth - 1), r.choice([">", "&", "|", ">?", ";>"]), gen_tterm(r, depth - 1))
+    return "{} {}".format(r.choice([">", "~", ">>", "&"]), gen_tterm(r, depth - 1))
+
+def hterm_sexp(x):
+    """a clingo theory-term AST -> the model's HTerm (unparsed terms are parsed by the real TheoryParser first, as the
+    transformer does)"""
+    import clingo
+    from clingo import ast
+    import telingo.transformers.head as th
+    T = ast.ASTType
+    if x.ast_type == T.TheoryUnparsedTerm:
+        return hterm_sexp(th.parse_raw_formula(x))
+    if x.ast_type == T.SymbolicTerm:
+        if x.symbol.type == clingo.SymbolType.Number:
+            return ("n", x.symbol.number)
+        return ("s", tl.QStr(str(x.symbol)))
+    if x.ast_type == T.Variable:
+        return ("v", tl.QStr(x.name))
+    if x.ast_type == T.TheoryFunction:
+        return ("f", tl.QStr(x.name)) + tuple(hterm_sexp(a) for a in x.arguments)
+    if x.ast_type == T.TheorySequence:
+        tag = "t" if x.sequence_type == ast.TheorySequenceType.Tuple else "q"
+        return (tag,) + tuple(hterm_sexp(a) for a in x.terms)
+    raise ValueError("unexpected theory term node " + str(x.ast_type))
+
+def pterm_sexp(x):
+    import clingo
+    from clingo import ast
+    T = ast.ASTType
+    if x.ast_type == T.SymbolicTerm:
+        if x.symbol.type == clingo.SymbolType.Number:
+            return ("n", x.symbol.number)
+        return ("s", tl.QStr(str(x.symbol)))
+    if x.ast_type == T.Variable:
+        return ("v", tl.QStr(x.name))
+    if x.ast_type == T.Function:
+        return ("f", tl.QStr(x.name)) + tuple(pterm_sexp(a) for a in x.arguments)
+    if x.ast_type == T.UnaryOperation and x.operator_type == ast.UnaryOperator.Minus:
+        return ("neg", pterm_sexp(x.argument))
+    if x.ast_type == T.BinaryOperation and x.operator_type in (ast.BinaryOperator.Plus, ast.BinaryOperator.Minus):
+        return ("bin", "+" if x.operator_type == ast.BinaryOperator.Plus else "-", pterm_sexp(x.left), pterm_sexp(x.right))
+    return ("not-a-plain-term", tl.QStr(str(x.ast_type)))
+
+def run_conv(seed, n, model_exe):
+    """the real `theory_term_to_term` vs the model's `convTerm` on random theory terms: same plain term or both RuntimeError"""
+    from clingo import ast
+    import telingo.transformers.head as th
+    r = random.Random(seed)
+    texts, lines, impl = [], [], []
+    stats = {}
+    for _ in range(n):
+        text = gen_tterm(r)
+        holder = []
+        try:
+            ast.parse_string("&tel {{ w({}) }}.".format(text), holder.append)
+            term = holder[1].head.elements[0].terms[0]
+            if term.ast_type == ast.ASTType.TheoryUnparsedTerm:
+                term = th.parse_raw_formula(term)
+            arg = term.arguments[0]
+            hs = hterm_sexp(arg)
+        except (RuntimeError, ValueError, IndexError, AttributeError):
+            stats["unparsable"] = stats.get("unparsable", 0) + 1
+            continue
+        try:
+            got = tl.sexp(pterm_sexp(th.theory_term_to_term(arg)))
+        except RuntimeError:
+            got = "ERR RuntimeError"
+        except BaseException as e:  # noqa
+            if isinstance(e, KeyboardInterrupt):
+                raise
+            got = "ERR " + tl.classify_exc(e)
+        texts.append(text); lines.append(tl.sexp(("convterm", hs))); impl.append(got)
+    outs = model_exe.batch(lines)
+    dis = []
+    for text, mo, got in zip(texts, outs, impl):
+        k = "rejected" if got.startswith("ERR") else "converted"
+        stats[k] = stats.get(k, 0) + 1
+        if " ".join(mo.split()) != " ".join(got.split()):
+            dis.append({"layer": "L1-term-conversion", "text": "&tel { w(" + text + ") }.", "model": mo, "impl": got})
+    return {"theory_terms": len(texts), "outcomes": stats}, dis
